@@ -48,7 +48,7 @@ Real == {"r1", "r2"}
 Insts == MInst \cup TInst \cup XI
 
 RECURSIVE SeqOf(_)
-SeqOf(S) == IF S = {} THEN <<>> ELSE LET x == CHOOSE y \in S : TRUE IN <<x>> \o SeqOf(S \ {x})
+SeqOf(Z) == IF Z = {} THEN <<>> ELSE LET x == CHOOSE y \in Z : TRUE IN <<x>> \o SeqOf(Z \ {x})
 Without(s, g) == SelectSeq(s, LAMBDA y : y # g)
 
 (* "none" = no delegate / no handle; "global" = the default (delegating) object; "r1"/"r2" = a real SDK *)
@@ -113,8 +113,7 @@ SCall(i) == /\ pc[i] = "call"
 SRet(i) == /\ pc[i] = "ret"
            /\ cnt' = [cnt EXCEPT ![i] = @ + 1]
            /\ Go(i, IF cnt[i] + 1 >= Len(Script[i]) THEN "done" ELSE "idle")
-           /\ mon' = IF S.val[i] \in Real /\ S.cur[i] # "none" /\ pc[i] = "ret" /\ S.val[i] # "global"
-                       THEN [mon EXCEPT !.setRet[KindK(i)] = TRUE] ELSE mon
+           /\ mon' = IF S.val[i] \in Real THEN [mon EXCEPT !.setRet[KindK(i)] = TRUE] ELSE mon
            /\ S' = [S EXCEPT !.val[i] = "none", !.cur[i] = "none"]
            /\ UNCHANGED <<M, T, X>>
 
